@@ -79,13 +79,20 @@ def fq(f):
     if isinstance(f, (types.FunctionType,)):
         return f.__module__ + ':' + f.__qualname__
     return None
+def plain(v, d=0):
+    if isinstance(v, tuple) and hasattr(v, '_fields'):
+        return ('__nt__', type(v).__name__, tuple(v._fields), tuple(plain(x, d+1) for x in v))
+    if isinstance(v, tuple): return tuple(plain(x, d+1) for x in v)
+    if isinstance(v, list): return [plain(x, d+1) for x in v]
+    if isinstance(v, dict): return {plain(k, d+1): plain(x, d+1) for k, x in v.items()}
+    return v
 out = {}
 for mn in mods:
     m = importlib.import_module(mn)
     info = {'consts': {}, 'funcs': {}, 'classes': {}, 'modules': {}, 'names': {}}
     for k, v in vars(m).items():
         if k.startswith('__'): continue
-        if basic(v): info['consts'][k] = v
+        if basic(v): info['consts'][k] = plain(v)
         elif isinstance(v, types.ModuleType): info['modules'][k] = v.__name__
         elif inspect.isclass(v):
             info['names'][k] = v.__module__ + ':' + v.__qualname__
@@ -96,7 +103,7 @@ for mn in mods:
                     try: raw = inspect.getattr_static(v, a)
                     except AttributeError: continue
                     val = getattr(v, a)
-                    if basic(val): ci['attrs'][a] = val
+                    if basic(val): ci['attrs'][a] = plain(val)
                     else:
                         q = fq(raw) or fq(val)
                         if q:
